@@ -237,7 +237,15 @@ fn run_param(ctx: &mut Ctx, inst: &Inst, prefixes: &[Bits], shape: &str) -> Opti
                     }
                 }
                 ctx.count("agg_params_through_wire");
-                p2
+                // The decoder rebuilds every prefix in fresh, aligned storage. An aggregator that built the
+                // parameter itself uses it as constructed (prefixes backed by arbitrary storage offsets, see
+                // `to_input`), so every other parameter is used as constructed; both are equal values.
+                if digest(&[&b]) % 2 == 0 {
+                    ctx.count("agg_params_used_as_constructed");
+                    param
+                } else {
+                    p2
+                }
             }
             Ok(Err(e)) => {
                 ctx.violation(format!("agg-param-wire|{lc}|decode-err"), "encoded admissible aggregation parameter refused by its decoder", base_wit(json!(e.to_string())));
